@@ -132,6 +132,12 @@ func (c *Ctx) runModelCase(s *Sub, src, stdin string, opt model.Options, o judge
 		c.Ev.Discard("model-over-budget")
 		return mc
 	}
+	if res.Outcome == model.Unspecified && strings.Contains(res.Why, "self-containing") {
+		// printing a self-containing value exhausts the host stack (open finding
+		// K13 of C07); not executed here
+		c.Ev.Exclude("K13-self-containing-print")
+		return mc
+	}
 	budget := 50*res.Steps + 100000
 	mc.Resp = c.W().Run(run.Req{Src: src, Stdin: stdin, Budget: budget, Depth: 4000})
 	mc.Sig, mc.Msg = judgeModel(&mc.Resp, res, budget, o)
